@@ -331,6 +331,15 @@ impl CtcDecoder {
                         next_prob_blank[[bi, label]],
                         next_prob_no_blank[[bi, label]],
                     ]);
+
+                    // Skip extensions with zero probability. This includes
+                    // extensions that were merged into another beam state
+                    // above, which would otherwise produce a duplicate of
+                    // that state's prefix.
+                    if prob_sum == f32::NEG_INFINITY {
+                        continue;
+                    }
+
                     if topk_extensions.len() < beam_size.as_usize()
                         || prob_sum
                             > topk_extensions
@@ -351,6 +360,16 @@ impl CtcDecoder {
                         topk_extensions.truncate(beam_size.as_usize());
                     }
                 }
+            }
+
+            // If every extension has zero probability, keep the first state
+            // so that the beam is never empty.
+            if topk_extensions.is_empty() {
+                topk_extensions.push(BeamExtension {
+                    index: 0,
+                    label: None,
+                    prob: f32::NEG_INFINITY,
+                });
             }
 
             beam = topk_extensions
